@@ -6,6 +6,10 @@ import (
 	"context"
 	"database/sql"
 
+	"github.com/0xPolygon/cdk-contracts-tooling/contracts/pp/l2-sovereign-chain/polygonzkevmbridgev2"
+	aggkittypes "github.com/agglayer/aggkit/types"
+	"github.com/ethereum/go-ethereum/common"
+
 	"github.com/agglayer/aggkit/log"
 	"github.com/agglayer/aggkit/sync"
 )
@@ -53,4 +57,14 @@ func VerifProcessorOf(s *BridgeSync) *VerifProcessor { return &VerifProcessor{p:
 // FacadeWithDetector is Facade plus a reorg detector (GetLastReorgEvent needs one).
 func (v *VerifProcessor) FacadeWithDetector(originNetwork uint32, rd ReorgDetector) *BridgeSync {
 	return &BridgeSync{processor: v.p, originNetwork: originNetwork, reorgDetector: rd}
+}
+
+// VerifBuildAppender returns the real log appenders of the bridge syncer (event decoding,
+// call extraction) for a client supplied by the verification harness.
+func VerifBuildAppender(client aggkittypes.EthClienter, bridge common.Address, syncFullClaims bool) (sync.LogAppenderMap, error) {
+	bridgeContractV2, err := polygonzkevmbridgev2.NewPolygonzkevmbridgev2(bridge, client)
+	if err != nil {
+		return nil, err
+	}
+	return buildAppender(client, bridge, syncFullClaims, bridgeContractV2, log.WithFields("module", "verif"))
 }
